@@ -333,6 +333,210 @@ fn renameall(req: &Value) -> Value {
     json!({"rename": {"ok": true, "edits": edits}, "texts": texts, "diag_before": diag_before, "diag_after": diag_after, "back_texts": back, "back_err": back_err, "offset_after": off2})
 }
 
+
+// ------------------------------------------------------------------------------------------------ C11: edit histories
+/// one workspace state: {"files":[{"id":k,"path":..,"text":..,"root":i}..], "roots":[{"path":..,"local":bool,"deps":[..],"toml":id}..]}
+fn state_change(ws: &Value, prev: Option<&Value>, always_structure: bool) -> Change {
+    let mut change = Change::default();
+    let files = ws["files"].as_array().unwrap();
+    let roots = ws["roots"].as_array().unwrap();
+    let key = |f: &Value| (f["id"].as_u64().unwrap(), f["path"].as_str().unwrap().to_string(), f["root"].as_u64().unwrap());
+    let mut membership_changed = prev.is_none();
+    let mut graph_changed = prev.is_none();
+    if let Some(p) = prev {
+        let pf = p["files"].as_array().unwrap();
+        let a: Vec<_> = pf.iter().map(key).collect();
+        let b: Vec<_> = files.iter().map(key).collect();
+        membership_changed = a != b || p["roots"] != ws["roots"];
+        graph_changed = p["roots"] != ws["roots"];
+        for f in pf {
+            if !files.iter().any(|g| g["id"] == f["id"]) {
+                change.change_file(FileId(f["id"].as_u64().unwrap() as u32), "".into()); // a removed file is emptied (what the Vfs does)
+            }
+        }
+    }
+    for f in files {
+        let old = prev.and_then(|p| p["files"].as_array().unwrap().iter().find(|g| g["id"] == f["id"]));
+        if old.map_or(true, |o| o["text"] != f["text"]) {
+            change.change_file(FileId(f["id"].as_u64().unwrap() as u32), f["text"].as_str().unwrap().into());
+        }
+    }
+    if prev.is_none() {
+        for r in roots {
+            change.change_file(FileId(r["toml"].as_u64().unwrap() as u32), "".into());
+        }
+    } else if let Some(p) = prev {
+        for r in roots {
+            if !p["roots"].as_array().unwrap().iter().any(|q| q["toml"] == r["toml"]) {
+                change.change_file(FileId(r["toml"].as_u64().unwrap() as u32), "".into());
+            }
+        }
+    }
+    if membership_changed || always_structure {
+        let mut sets: Vec<FileSet> = roots.iter().map(|_| FileSet::default()).collect();
+        for f in files {
+            sets[f["root"].as_u64().unwrap() as usize].insert(FileId(f["id"].as_u64().unwrap() as u32), VfsPath::new(f["path"].as_str().unwrap()));
+        }
+        let mut srs = Vec::new();
+        for (i, r) in roots.iter().enumerate() {
+            let p = r["path"].as_str().unwrap();
+            sets[i].insert(FileId(r["toml"].as_u64().unwrap() as u32), VfsPath::new(format!("{p}/gleam.toml")));
+            srs.push(SourceRoot::new(std::mem::take(&mut sets[i]), p.into()));
+        }
+        change.set_roots(srs);
+    }
+    if graph_changed || always_structure {
+        let mut graph = PackageGraph::default();
+        let mut pkgs = Vec::new();
+        for (i, r) in roots.iter().enumerate() {
+            pkgs.push(graph.add_package(format!("pkg{i}").into(), FileId(r["toml"].as_u64().unwrap() as u32), r["local"].as_bool().unwrap()));
+        }
+        for (i, r) in roots.iter().enumerate() {
+            for d in r["deps"].as_array().unwrap() {
+                graph.add_dep(pkgs[i], Dependency { package: pkgs[d.as_u64().unwrap() as usize] });
+            }
+        }
+        change.set_package_graph(graph);
+    }
+    change
+}
+
+fn guarded<T>(f: impl FnOnce() -> Result<T, ide::Cancelled>, show: impl FnOnce(T) -> Value) -> Value {
+    match panic::catch_unwind(panic::AssertUnwindSafe(f)) {
+        Ok(Ok(v)) => show(v),
+        Ok(Err(_)) => json!("<cancelled>"),
+        Err(_) => json!("<panic>"),
+    }
+}
+
+/// every answer of the public API on a workspace state, keyed by "<file>@<offset>:<query>"; `rev` asks in the opposite order
+fn dump_answers(host: &AnalysisHost, ws: &Value, rev: bool) -> std::collections::BTreeMap<String, Value> {
+    let a = host.snapshot();
+    let mut out = std::collections::BTreeMap::new();
+    let mut files: Vec<&Value> = ws["files"].as_array().unwrap().iter().collect();
+    if rev {
+        files.reverse();
+    }
+    for f in files {
+        let id = f["id"].as_u64().unwrap() as u32;
+        let file = FileId(id);
+        let text = f["text"].as_str().unwrap();
+        let mut toks: Vec<_> = syntax::lexer::GleamLexer::new(text).filter(|t| t.kind == syntax::SyntaxKind::IDENT || t.kind == syntax::SyntaxKind::U_IDENT).collect();
+        if rev {
+            toks.reverse();
+        }
+        let file_level = |out: &mut std::collections::BTreeMap<String, Value>| {
+            out.insert(
+                format!("{id}:diagnostics"),
+                guarded(|| a.diagnostics(file), |ds| Value::Array(ds.iter().map(|d| json!([u32::from(d.range.start()), u32::from(d.range.end()), format!("{:?}", d.kind)])).collect())),
+            );
+            out.insert(
+                format!("{id}:semantic"),
+                guarded(|| a.syntax_highlight(file, None), |hs| Value::Array(hs.iter().map(|h| json!([u32::from(h.range.start()), u32::from(h.range.end()), format!("{:?}", h.tag)])).collect())),
+            );
+        };
+        if rev {
+            file_level(&mut out);
+        }
+        for tok in toks {
+            let off = u32::from(tok.range.start());
+            let fpos = FilePos::new(file, tok.range.start());
+            let epos = FilePos::new(file, tok.range.end());
+            let mut qs: Vec<(&str, Box<dyn Fn() -> Value + '_>)> = vec![
+                ("goto", Box::new(|| guarded(|| a.goto_definition(fpos), |g| match g {
+                    Some(ide::GotoDefinitionResult::Targets(ts)) => Value::Array(
+                        ts.iter().map(|t| json!([t.file_id.0, u32::from(t.focus_range.start()), u32::from(t.focus_range.end()), u32::from(t.full_range.start()), u32::from(t.full_range.end())])).collect(),
+                    ),
+                    Some(_) => json!("<other>"),
+                    None => Value::Null,
+                }))),
+                ("refs", Box::new(|| guarded(|| a.references(fpos), |r| match r {
+                    Some(rs) => {
+                        let mut v: Vec<(u32, u32, u32)> = rs.iter().map(|r| (r.file_id.0, u32::from(r.range.start()), u32::from(r.range.end()))).collect();
+                        v.sort();
+                        json!(v)
+                    }
+                    None => Value::Null,
+                }))),
+                ("highlight", Box::new(|| guarded(|| a.highlight_related(fpos), |hs| {
+                    let mut v: Vec<(u32, u32)> = hs.iter().map(|h| (u32::from(h.range.start()), u32::from(h.range.end()))).collect();
+                    v.sort();
+                    json!(v)
+                }))),
+                ("hover", Box::new(|| guarded(|| a.hover(fpos), |h| match h {
+                    Some(h) => json!([u32::from(h.range.start()), u32::from(h.range.end()), h.markup]),
+                    None => Value::Null,
+                }))),
+                ("complete", Box::new(|| guarded(|| a.completions(epos, None), |c| match c {
+                    Some(items) => {
+                        let mut v: Vec<String> = items.iter().map(|i| format!("{}|{}|{:?}", i.label, i.replace, i.kind)).collect();
+                        v.sort();
+                        json!(v)
+                    }
+                    None => Value::Null,
+                }))),
+                ("prepare_rename", Box::new(|| guarded(|| a.prepare_rename(fpos), |p| match p {
+                    Ok((r, n)) => json!([u32::from(r.start()), u32::from(r.end()), n.as_str()]),
+                    Err(e) => json!({"err": e}),
+                }))),
+            ];
+            if rev {
+                qs.reverse();
+            }
+            for (name, q) in qs {
+                out.insert(format!("{id}@{off}:{name}"), q());
+            }
+        }
+        if !rev {
+            file_level(&mut out);
+        }
+    }
+    out
+}
+
+/// {"states":[ws..], "check":[bool..], "always_structure":bool, "warm":bool}: state 0 is loaded, every later state is reached by the delta Change;
+/// after every state with check=true the answers of the long-lived host are compared with a fresh host for that state, and with a second
+/// fresh host asked in the opposite order.  -> {"diffs":[{"state":i,"key":..,"incremental":..,"fresh":..}|{"state":i,"key":..,"fresh":..,"fresh_reverse":..}], "answers":n, "panics":n}
+fn history(req: &Value) -> Value {
+    let states = req["states"].as_array().unwrap();
+    let always = req["always_structure"].as_bool().unwrap_or(false);
+    let mut host = AnalysisHost::new();
+    let mut diffs = Vec::new();
+    let mut answers = 0usize;
+    let mut panics = 0usize;
+    for (i, ws) in states.iter().enumerate() {
+        let ch = state_change(ws, if i == 0 { None } else { Some(&states[i - 1]) }, always);
+        host.apply_change(ch);
+        if !req["check"][i].as_bool().unwrap_or(i + 1 == states.len()) {
+            continue;
+        }
+        let inc = dump_answers(&host, ws, false);
+        let mut fresh_host = AnalysisHost::new();
+        fresh_host.apply_change(state_change(ws, None, true));
+        let fresh = dump_answers(&fresh_host, ws, false);
+        let mut fresh_host2 = AnalysisHost::new();
+        fresh_host2.apply_change(state_change(ws, None, true));
+        let fresh_rev = dump_answers(&fresh_host2, ws, true);
+        answers += inc.len();
+        for (k, v) in fresh.iter() {
+            if v == "<panic>" {
+                panics += 1;
+            }
+            if inc.get(k) != Some(v) && diffs.len() < 8 {
+                diffs.push(json!({"state": i, "key": k, "incremental": inc.get(k), "fresh": v}));
+            }
+            if fresh_rev.get(k) != Some(v) && diffs.len() < 8 {
+                diffs.push(json!({"state": i, "key": k, "fresh": v, "fresh_reverse": fresh_rev.get(k)}));
+            }
+        }
+    }
+    if req["dump"].as_bool().unwrap_or(false) {
+        let last = states.last().unwrap();
+        return json!({"diffs": diffs, "answers": answers, "panics": panics, "dump": dump_answers(&host, last, false)});
+    }
+    json!({"diffs": diffs, "answers": answers, "panics": panics})
+}
+
 fn main() {
     panic::set_hook(Box::new(|_| {}));
     let stdin = std::io::stdin();
@@ -358,6 +562,7 @@ fn main() {
             "modname" => modname(&req),
             "inverse" => inverse(&req),
             "renameall" => renameall(&req),
+            "history" => history(&req),
             _ => json!({"error": "unknown command"}),
         });
         let out = match res {
